@@ -667,6 +667,14 @@ def decide(pid, tier, seed):
         if vac:
             raise ToolProblem("vacuity canary: `assert(false)` verifies in %s (contradictory precondition or inconsistent assumption)" % ", ".join(vac))
 
+    # ---- the proof passed: independent differential cross-check on the real crate (a failing input that replays is a
+    # violation even if every obligation was discharged - it would mean a contract is weaker than the property)
+    cross = None
+    if not failed and not violations:
+        import vsearch
+        cross, cex0 = vsearch.crosscheck(pid, seed, tier)
+        if cex0:
+            violations.append({"kind": "search", "obligation": "(all obligations discharged; differential search found a failing input)", "detail": cex0.get("detail"), "cex": cex0})
     for ob in failed:
         violations.append({"kind": "verus", "obligation": ob_name(ob), "message": ob["message"], "where": ob.get("where"), "detail": ob.get("detail"), "src": ob.get("src_text")})
     if missing:
@@ -695,6 +703,7 @@ def decide(pid, tier, seed):
             "assumption_scan": res.get("assumption_scan"),
             "canary": canary_info,
             "known_findings_replayed": {w: wres.get(w, ("missing", ""))[0] for w in wnames},
+            "search_crosscheck": cross,
             "notes": notes,
             "exhaustive": False,
         },
